@@ -235,7 +235,9 @@ func checkAwkward(c *vm.Ctx, r *vm.Rand) {
 	var v any
 	kind := ""
 	name := ""
-	switch r.Intn(8) {
+	switch r.Intn(9) {
+	case 8:
+		v, kind = map[int32]string{1: "a", 2: "b", int32(r.Intn(100) + 3): "c"}, "map-with-integer-keys"
 	case 0:
 		v, kind = het(), "heterogeneous-list"
 	case 1:
@@ -288,6 +290,18 @@ func checkAwkward(c *vm.Ctx, r *vm.Rand) {
 		w["output_head_hex"] = vm.Hex(buf.Bytes()[:min(buf.Len(), 96)])
 		c.Violation("enc/accepted-but-malformed/"+kind, fmt.Sprintf("the encoder reported success but its output is not one well-formed document: %v (used %d of %d bytes)", perr, used, buf.Len()), w)
 		return
+	}
+	if kind == "map-with-integer-keys" {
+		// only string-keyed maps are compounds; if such a map is accepted at all, its members must stay apart
+		tree, _, _, _ := refnbt.Parse(buf.Bytes(), network)
+		names := map[string]bool{}
+		for _, e := range tree.Comp {
+			names[e.Name] = true
+		}
+		if tree.Tag != refnbt.Compound || len(names) != 3 {
+			c.Violation("enc/accepted-but-members-collapse/"+kind, fmt.Sprintf("a map with 3 integer keys was accepted and written as %s", refnbt.Describe(tree)), wit())
+			return
+		}
 	}
 	c.Cover("awkward." + kind + ".well-formed")
 }
